@@ -254,6 +254,9 @@ func (u *Universe) AddMethodTypes(meth []*Type, quick bool, seed int64, nSample 
 		if t.K == "basic" && t.B == "complex64" {
 			return true
 		}
+		if t.K == "map" && t.Key.K == "basic" && (t.Key.B == "complex64" || t.Key.B == "complex128") { // complex-keyed map
+			return true
+		}
 		for _, ch := range t.Children() {
 			if hasC64(ch) {
 				return true
